@@ -276,7 +276,7 @@ inductive Res where
   | ok (v : Val) (ρ : Env)
   | ret (v : Val) (ρ : Env)
   | brk (ρ : Env)
-  | panic
+  | panic (ρ : Env)          -- the environment at the point of the panic: what a `catch_unwind` finds
   | stuck
   deriving Inhabited
 
@@ -284,7 +284,7 @@ inductive ResL where
   | ok (vs : List Val) (ρ : Env)
   | ret (v : Val) (ρ : Env)
   | brk (ρ : Env)
-  | panic
+  | panic (ρ : Env)
   | stuck
 
 /-! ### patterns -/
@@ -384,26 +384,26 @@ def eval (S : Sem) : Nat → Env → Expr → Res
     | .closure _ _ => .stuck
     | .mkStrct fes => match evalL S fuel ρ (fes.map (·.2)) with
       | .ok vs ρ' => .ok (.strct ((fes.map (·.1)).zip vs)) ρ'
-      | .ret v ρ' => .ret v ρ' | .brk ρ' => .brk ρ' | .panic => .panic | .stuck => .stuck
+      | .ret v ρ' => .ret v ρ' | .brk ρ' => .brk ρ' | .panic ρp => .panic ρp | .stuck => .stuck
     | .ctor c args => match evalL S fuel ρ args with
       | .ok vs ρ' => .ok (.ctor c vs) ρ'
-      | .ret v ρ' => .ret v ρ' | .brk ρ' => .brk ρ' | .panic => .panic | .stuck => .stuck
+      | .ret v ρ' => .ret v ρ' | .brk ρ' => .brk ρ' | .panic ρp => .panic ρp | .stuck => .stuck
     | .call f args =>
       -- `mem::replace(place, v)` / `mem::take(place)`
       if f == N.mem_replace then
         match args with
         | [pl, ve] => match readPlace ρ pl, eval S fuel ρ ve with
           | some old, .ok v ρ' => (match writePlace ρ' pl v with | some ρ'' => .ok old ρ'' | none => .stuck)
-          | _, .panic => .panic
+          | _, .panic ρp => .panic ρp
           | _, _ => .stuck
         | _ => .stuck
       else match evalL S fuel ρ args with
-        | .ok vs ρ' => (match S.call f vs with | .ok v _ => .ok v ρ' | .okM v _ _ => .ok v ρ' | .panic => .panic | .unknown => .stuck)
-        | .ret v ρ' => .ret v ρ' | .brk ρ' => .brk ρ' | .panic => .panic | .stuck => .stuck
+        | .ok vs ρ' => (match S.call f vs with | .ok v _ => .ok v ρ' | .okM v _ _ => .ok v ρ' | .panic => .panic ρ' | .unknown => .stuck)
+        | .ret v ρ' => .ret v ρ' | .brk ρ' => .brk ρ' | .panic ρp => .panic ρp | .stuck => .stuck
     | .app f args => match eval S fuel ρ f with
       | .ok (.fn k) ρ' => (match evalL S fuel ρ' args with
         | .ok vs ρ'' => (match S.app k vs with | some v => .ok v ρ'' | none => .stuck)
-        | .ret v ρ'' => .ret v ρ'' | .brk ρ'' => .brk ρ'' | .panic => .panic | .stuck => .stuck)
+        | .ret v ρ'' => .ret v ρ'' | .brk ρ'' => .brk ρ'' | .panic ρp => .panic ρp | .stuck => .stuck)
       | .ok _ _ => .stuck
       | r => r
     | .field e f => match eval S fuel ρ e with
@@ -450,9 +450,9 @@ def eval (S : Sem) : Nat → Env → Expr → Res
             | none =>
               -- operands that are not literal numbers (opaque quantities): the `Sem` answers
               (match va, vb with
-               | .nat _, .nat _ => if op == N.sub then .panic else .stuck
+               | .nat _, .nat _ => if op == N.sub then .panic ρ'' else .stuck
                | _, _ => (match S.call op [va, vb] with
-                 | .ok v _ => .ok v ρ'' | .okM v _ _ => .ok v ρ'' | .panic => .panic | .unknown => .stuck)))
+                 | .ok v _ => .ok v ρ'' | .okM v _ _ => .ok v ρ'' | .panic => .panic ρ'' | .unknown => .stuck)))
           | r => r)
       | r => r
     | .neg a => match eval S fuel ρ a with
@@ -482,12 +482,12 @@ def eval (S : Sem) : Nat → Env → Expr → Res
       | .brk ρ' => .ok .unit ρ'
       | r => r
     | .mac m args =>
-      if m == N.unreachable || m == N.panic then .panic
+      if m == N.unreachable || m == N.panic then .panic ρ
       else if m == N.assert || (m == N.debug_assert && S.debug) then
         match args with
         | c :: _ => (match eval S fuel ρ c with
           | .ok (.bool true) ρ' => .ok .unit ρ'
-          | .ok (.bool false) _ => .panic
+          | .ok (.bool false) ρ' => .panic ρ'
           | .ok _ _ => .stuck
           | r => r)
         | [] => .stuck
@@ -495,7 +495,7 @@ def eval (S : Sem) : Nat → Env → Expr → Res
         match args with
         | a :: b :: _ => (match eval S fuel ρ (.bin N.eq a b) with
           | .ok (.bool true) ρ' => .ok .unit ρ'
-          | .ok (.bool false) _ => .panic
+          | .ok (.bool false) ρ' => .panic ρ'
           | .ok _ _ => .stuck
           | r => r)
         | _ => .stuck
@@ -503,7 +503,7 @@ def eval (S : Sem) : Nat → Env → Expr → Res
         match args with
         | a :: b :: _ => (match eval S fuel ρ (.bin N.ne a b) with
           | .ok (.bool true) ρ' => .ok .unit ρ'
-          | .ok (.bool false) _ => .panic
+          | .ok (.bool false) ρ' => .panic ρ'
           | .ok _ _ => .stuck
           | r => r)
         | _ => .stuck
@@ -517,12 +517,12 @@ def eval (S : Sem) : Nat → Env → Expr → Res
               | some ρ'' => .ok (.ctor N.Ok [.unit]) ρ''
               | none => .stuck)
             | _ => .stuck)
-          | .ret v ρ' => .ret v ρ' | .brk ρ' => .brk ρ' | .panic => .panic | .stuck => .stuck)
+          | .ret v ρ' => .ret v ρ' | .brk ρ' => .brk ρ' | .panic ρp => .panic ρp | .stuck => .stuck)
         | [] => .stuck
       else if m == N.format then
         match evalL S fuel ρ args with
-        | .ok vs ρ' => (match S.call N.format vs with | .ok v _ => .ok v ρ' | .okM v _ _ => .ok v ρ' | .panic => .panic | .unknown => .stuck)
-        | .ret v ρ' => .ret v ρ' | .brk ρ' => .brk ρ' | .panic => .panic | .stuck => .stuck
+        | .ok vs ρ' => (match S.call N.format vs with | .ok v _ => .ok v ρ' | .okM v _ _ => .ok v ρ' | .panic => .panic ρ' | .unknown => .stuck)
+        | .ret v ρ' => .ret v ρ' | .brk ρ' => .brk ρ' | .panic ρp => .panic ρp | .stuck => .stuck
       else .stuck
 
 def evalL (S : Sem) : Nat → Env → List Expr → ResL
@@ -534,7 +534,7 @@ def evalL (S : Sem) : Nat → Env → List Expr → ResL
       | r => r)
     | .ret v ρ' => .ret v ρ'
     | .brk ρ' => .brk ρ'
-    | .panic => .panic
+    | .panic ρp => .panic ρp
     | .stuck => .stuck
 
 def evalArms (S : Sem) : Nat → Env → Val → List Arm → Res
@@ -592,7 +592,7 @@ def evalMeth (S : Sem) : Nat → Env → Expr → Val → Nat → List Expr → 
       | _ => .stuck)
     else if m == N.unwrap || m == N.expect then (match rv with
       | .ctor c vs => if c == N.Some || c == N.Ok then (match vs with | [v] => .ok v ρ | _ => .stuck)
-                      else if c == N.None || c == N.Err then .panic else .stuck
+                      else if c == N.None || c == N.Err then .panic ρ else .stuck
       | _ => .stuck)
     else if m == N.or_else then (match rv, args with
       | .ctor c vs, [.closure [] body] =>
@@ -642,15 +642,15 @@ def evalMeth (S : Sem) : Nat → Env → Expr → Val → Nat → List Expr → 
              if isPlace recv then (match writePlace ρ'' recv rv' with | some ρ3 => .ok r ρ3 | none => .stuck)
              else .ok r ρ''
            | none => .stuck)
-        | .panic => .panic
+        | .panic => .panic ρ'
         | .unknown => .stuck)
-      | .ret v ρ' => .ret v ρ' | .brk ρ' => .brk ρ' | .panic => .panic | .stuck => .stuck
+      | .ret v ρ' => .ret v ρ' | .brk ρ' => .brk ρ' | .panic ρp => .panic ρp | .stuck => .stuck
 end
 
 /-- outcome of a whole function: a `return` is a result -/
 inductive Out where
   | val (v : Val) (ρ : Env)
-  | panic
+  | panic (ρ : Env)
   | stuck
 
 def run (S : Sem) (fuel : Nat) (f : Fn) (ρ : Env) : Out :=
@@ -658,7 +658,7 @@ def run (S : Sem) (fuel : Nat) (f : Fn) (ρ : Env) : Out :=
   | .ok v ρ' => .val v ρ'
   | .ret v ρ' => .val v ρ'
   | .brk _ => .stuck
-  | .panic => .panic
+  | .panic ρ' => .panic ρ'
   | .stuck => .stuck
 
 /-- what the caller can see of an outcome: the value and the listed places (`self`, `&mut` parameters)
@@ -670,13 +670,27 @@ inductive Seen where
 
 def Out.seen (xs : List Nat) : Out → Seen
   | .val v ρ => .val v (xs.map ρ.get)
-  | .panic => .panic
+  | .panic _ => .panic
+  | .stuck => .stuck
+
+/-- the same, but a panic also shows the listed places as the unwinding leaves them (what `catch_unwind` finds) -/
+inductive SeenP where
+  | val (v : Val) (places : List (Option Val))
+  | panic (places : List (Option Val))
+  | stuck
+
+def Out.seenP (xs : List Nat) : Out → SeenP
+  | .val v ρ => .val v (xs.map ρ.get)
+  | .panic ρ => .panic (xs.map ρ.get)
   | .stuck => .stuck
 
 /-- run with `self` and the parameters bound in order (ids 0, 1, 2, … -- for a function without `self`
     the list starts with a dummy), observing the places `xs` -/
 def call (S : Sem) (fuel : Nat) (f : Fn) (args : List Val) (xs : List Nat := [0]) : Seen :=
   (run S fuel f ((List.range args.length).zip args)).seen xs
+
+def callP (S : Sem) (fuel : Nat) (f : Fn) (args : List Val) (xs : List Nat := [0]) : SeenP :=
+  (run S fuel f ((List.range args.length).zip args)).seenP xs
 
 /-- a `Sem` that knows nothing -/
 def Sem.none : Sem := ⟨fun _ _ _ => .unknown, fun _ _ => .unknown, fun _ _ => Option.none, false⟩
